@@ -19,9 +19,9 @@ open Prelude Gen
 
 variable {K : Type} [Field K] [LinearOrder K] [IsStrictOrderedRing K] [Inhabited K] [FSqrt K]
 
-local instance : FAbs K := ⟨fun a => |a|⟩
+local instance instFAbs : FAbs K := ⟨fun a => |a|⟩
 /-- `n as f64` -/
-local instance : OfInt K := ⟨fun z => (z : K)⟩
+local instance instOfInt : OfInt K := ⟨fun z => (z : K)⟩
 
 /-! ### walk_curve_unevenly -/
 
